@@ -17,16 +17,6 @@ import IbcVerif.Lemmas.Ics20Step
 namespace IbcVerif.C49
 open IbcVerif IbcVerif.Xfer IbcVerif.Ics20
 
-theorem moveBal_lt {bal : Addr → Str → Nat} {f t : Addr} {k : Str} {n : Nat} {a : Addr} {x : Str}
-    (h : moveBal bal f t k n a x < bal a x) : a = f ∧ x = k := by
-  unfold moveBal at h
-  split_ifs at h <;> first | omega | exact ⟨by assumption, by assumption⟩
-
-theorem moveBal_gt {bal : Addr → Str → Nat} {f t : Addr} {k : Str} {n : Nat} {a : Addr} {x : Str}
-    (h : bal a x < moveBal bal f t k n a x) : a = t ∧ x = k := by
-  unfold moveBal at h
-  split_ifs at h <;> first | omega | exact ⟨by assumption, by assumption⟩
-
 /-- **Debits need the account's own signature.**  In every step of every world, if the balance of an
     account that is not an escrow account goes down (any denomination, any chain), then the step is
 
